@@ -164,7 +164,7 @@ def readQueueU (u : UP) (inj : BSt → Nat → BSt) (tsNow : Option Nat) (i : Na
     | st :: rest =>
       if (match tsNow with | some t => decide (t < st.ts) | none => false) then fin (note sR) else
       let s3 := note (readOneU sR i st rest)
-      let s4 := inj s3 3
+      let s4 := inj (fmtNote s3 st) 3
       let total' := total + st.size
       if total' < qcap0 ∧ (s4.th i).buf.length < s4.cfg.hard then readQueueU u inj tsNow i qcap0 fuel total' s4
       else commitReadU s4 i
